@@ -44,17 +44,28 @@ func fabricatedExpressions(c *Ctx, rule string) {
 			}
 			ord++
 			n++
-			hasRange := false
+			rangeExpr, valueExpr := "", ""
 			for _, el := range cl.Elts {
-				if kv, ok := el.(*ast.KeyValueExpr); ok && types.ExprString(kv.Key) == "Range" {
-					hasRange = true
+				if kv, ok := el.(*ast.KeyValueExpr); ok {
+					switch types.ExprString(kv.Key) {
+					case "Range":
+						rangeExpr = types.ExprString(kv.Value)
+					case "Value":
+						valueExpr = types.ExprString(kv.Value)
+					}
 				}
 			}
-			key := fmt.Sprintf("%s|fabricates-expression#%d", gf.Key, ord)
-			if hasRange {
-				c.ok(rule, key, c.pos(cl.Pos()), "expression literal carries an explicit Range")
-			} else {
+			// a literal that copies both fields from one source expression is not fabricated
+			if strings.HasSuffix(valueExpr, ".Value") && rangeExpr == strings.TrimSuffix(valueExpr, ".Value")+".Range" {
+				c.ok(rule, fmt.Sprintf("%s|copies-expression#%d", gf.Key, ord), c.pos(cl.Pos()), "Value and Range are copied from the same source expression")
+				return true
+			}
+			if rangeExpr == "" {
+				key := fmt.Sprintf("%s|fabricates-expression#%d|zero-range", gf.Key, ord)
 				c.viol(rule, key, c.pos(cl.Pos()), gf.Name+" builds a parser.Expression with a zero Range; when it is later written and registered with sourceMap.Add, source positions (0,0…) — the package clause — are mapped into generated code that is not in the template")
+			} else {
+				key := fmt.Sprintf("%s|fabricates-expression#%d|range-from:%s", gf.Key, ord, rangeExpr)
+				c.viol(rule, key, c.pos(cl.Pos()), gf.Name+" builds a parser.Expression whose text ("+valueExpr+") is made up by the generator but whose Range ("+rangeExpr+") is a real source range: when it is written and registered with sourceMap.Add, that source range is mapped to generated text the template does not contain, and it replaces the correct mapping of the user's own expression at the same range (go-to-definition, hover and diagnostics for it land in the wrong place)")
 			}
 			return true
 		})
